@@ -5,3 +5,5 @@ func (g *Gen) txExt(kind string, hostile bool) STx {
 }
 
 func familyExt(family, id string, g *Gen, blocks, maxTx int) *Scenario { return nil }
+
+func familyKindsExt(family string) []string { return nil }
